@@ -227,7 +227,18 @@ func uploadStorm(st vgirpc.ExternalStorage, proc, G, U int, startAt time.Time, l
 					arrived[u].Done()
 					<-rounds[u]
 				}
-				if _, err := handles[g%len(handles)].Upload(payloads[u], c33Schema, ""); err != nil {
+				// a backend that panics under concurrent use is counted as a failed
+				// upload: the keys of the uploads that did land are still judged
+				upload := func() (err error) {
+					defer func() {
+						if rv := recover(); rv != nil {
+							err = fmt.Errorf("Upload panicked: %v", rv)
+						}
+					}()
+					_, err = handles[g%len(handles)].Upload(payloads[u], c33Schema, "")
+					return
+				}
+				if err := upload(); err != nil {
 					mu.Lock()
 					errs++
 					if firstErr == "" {
@@ -282,7 +293,7 @@ func genC33(t *rapid.T) c33Case {
 	c := c33Case{Procs: 1}
 	c.Backend = []string{"s3", "gcs"}[rapid.IntRange(0, 1).Draw(t, "backend")]
 	c.Lockstep = rapid.IntRange(0, 2).Draw(t, "lockstep") != 0
-	c.Handles = []int{1, 1, 2, 3}[rapid.IntRange(0, 3).Draw(t, "handles")]
+	c.Handles = []int{1, 1, 1, 2, 3}[rapid.IntRange(0, 4).Draw(t, "handles")]
 	c.G = []int{2, 4, 8, 16, 32, 64, 128, 256}[rapid.IntRange(0, 7).Draw(t, "goroutines")]
 	maxU := 2048 / c.G
 	if c.Backend == "gcs" {
